@@ -4,8 +4,11 @@ import (
 	"fmt"
 	"math"
 	"net"
+	"os"
+	"path/filepath"
 	"sort"
 	"strings"
+	"sync"
 	"time"
 
 	"github.com/shopspring/decimal"
@@ -129,6 +132,63 @@ func c02Exec(env *stick.Env, src string, ctx map[string]stick.Value, desc string
 	return r
 }
 
+// c02Names are template names handed directly to Execute and Parse under every built-in loader.
+var c02Names = []string{"", " ", "/", "\\", ".", "..", "../x", "a/../../b", "inc", "inc/", "/inc", "./inc", "sub", "sub/", "sub/../inc", "\x00", "inc\x00", "a\nb",
+	"{{", "{% include '' %}", "{% extends '' %}{% block b %}{% endblock %}", "{{ include }}", strings.Repeat("n", 5000), strings.Repeat("../", 200), "%s", "~", "*", "inc?"}
+
+var (
+	c02FSOnce sync.Once
+	c02FSDir  string
+)
+
+// c02LoaderEnv returns an environment over the corpus templates (plus main) served by the given built-in loader:
+// 1 = FilesystemLoader over a scratch directory, 2 = StringLoader (the name is the source), otherwise MemoryLoader.
+// tw selects the Twig environment.
+func c02LoaderEnv(kind int, tw bool, mainName, mainSrc string) (*stick.Env, string) {
+	var ld stick.Loader
+	name := mainName
+	switch kind {
+	case 1:
+		c02FSOnce.Do(func() {
+			c02FSDir = filepath.Join(core.WorkDir, "c02fs")
+			if core.WorkDir == "" {
+				c02FSDir, _ = os.MkdirTemp("", "c02fs")
+			}
+			os.MkdirAll(filepath.Join(c02FSDir, "sub"), 0o755)
+			for k, v := range corpusTpls {
+				if strings.ContainsAny(k, "/\x00") {
+					continue
+				}
+				os.WriteFile(filepath.Join(c02FSDir, k), []byte(v), 0o644)
+			}
+		})
+		if mainName != "" {
+			os.WriteFile(filepath.Join(c02FSDir, mainName), []byte(mainSrc), 0o644)
+		}
+		ld = stick.NewFilesystemLoader(c02FSDir)
+	case 2:
+		ld = &stick.StringLoader{}
+		name = mainSrc
+	default:
+		m := map[string]string{}
+		for k, v := range corpusTpls {
+			m[k] = v
+		}
+		if mainName != "" {
+			m[mainName] = mainSrc
+		}
+		ld = &stick.MemoryLoader{Templates: m}
+	}
+	var env *stick.Env
+	if tw {
+		env = twig.New(ld)
+	} else {
+		env = stick.New(ld)
+	}
+	addStdCallbacks(env)
+	return env, name
+}
+
 func c02TooBigRange(a, b stick.Value) bool {
 	x, y := stick.CoerceNumber(a), stick.CoerceNumber(b)
 	if math.IsNaN(x) || math.IsNaN(y) {
@@ -211,6 +271,32 @@ func c02Run(c core.Case) core.Result {
 			src = "{{ v|" + f + "(" + strings.Join(argNames, ", ") + ") }}"
 		}
 		return c02Exec(twig.New(nil), src, ctx, fmt.Sprintf("twig: %s with v=%s%s", src, v.name, desc))
+	case "loaders":
+		// every tag form x every value, the templates served by the filesystem and string loaders
+		x := vals[c.N[1]]
+		src := c02TagForms[c.N[0]]
+		if strings.Contains(src, "..") && (c02TooBigRange(0, x.v) || c02TooBigRange(x.v, 3)) {
+			return core.Skipped("range-over-a-million")
+		}
+		env, name := c02LoaderEnv(c.N[2], c.N[3] == 1, "t"+itoa(c.N[0])+".twig", src)
+		return c02Exec(env, name, map[string]stick.Value{"x": x.v}, fmt.Sprintf("loader kind %d twig=%d: %s with x=%s", c.N[2], c.N[3], src, x.name))
+	case "names":
+		// Execute and Parse called directly with every name
+		name := c02Names[c.N[0]]
+		env, _ := c02LoaderEnv(c.N[1], c.N[2] == 1, "", "")
+		desc := fmt.Sprintf("loader kind %d twig=%d: name %q", c.N[1], c.N[2], name)
+		if _, _, pan := tryEnvParse(env, name); pan != "" {
+			return core.Violation("panic", desc+": Parse panicked: "+pan)
+		}
+		_, err, pan := tryExec(env, name, map[string]stick.Value{"x": name})
+		if pan != "" {
+			return core.Violation("panic", desc+": Execute panicked: "+pan)
+		}
+		r := core.Okay(true, "name-ok")
+		if err != nil {
+			r = core.Okay(true, "name-err")
+		}
+		return r
 	case "filtertag":
 		names := c02FilterNames()
 		f, g := names[c.N[0]], names[c.N[1]]
@@ -261,6 +347,24 @@ func c02Levels(tier string) []core.Level {
 						for b := 0; b < na; b++ {
 							emit(core.Case{Fam: "filter", N: []int{f, v, a, b}})
 						}
+					}
+				}
+			}
+		}},
+		{Name: fmt.Sprintf("built-in loaders: %d tag forms x every value with the templates served by the FilesystemLoader and the StringLoader (core and twig environments); Execute and Parse called with %d names (empty, rooted, climbing, directories, NUL, 5000 bytes, template source) under the three loaders", len(c02TagForms), len(c02Names)), Gen: func(emit func(core.Case)) {
+			for t := range c02TagForms {
+				for v := 0; v < nv; v++ {
+					for k := 1; k <= 2; k++ {
+						for tw := 0; tw < 2; tw++ {
+							emit(core.Case{Fam: "loaders", N: []int{t, v, k, tw}})
+						}
+					}
+				}
+			}
+			for n := range c02Names {
+				for k := 0; k <= 2; k++ {
+					for tw := 0; tw < 2; tw++ {
+						emit(core.Case{Fam: "names", N: []int{n, k, tw}})
 					}
 				}
 			}
